@@ -128,6 +128,9 @@ def run(ctx):
                            2: "observation differs from the Coq model of MatchAndResolve/parseTemplatedElements"}[code],
                "replay_cmd": "./check C16 --replay <this file>"}
         ctx.report(rep, features(j), failing_input=(code == 1))
+    pend = getattr(ctx, "pending_tie_report", None)
+    if pend and not any(c == 1 and jsons[i]["kind"] != "ood" for i, c in bad):
+        ctx.report(pend[0], pend[1], failing_input=False)
     strs = [s for j in jsons for s in strings_of(j["doc"])]
     tmpl = [s for s in strs if s.startswith("${")]
     ctx.cov.update({
@@ -155,34 +158,21 @@ def run(ctx):
 
 def translator_tie(ctx):
     """(T) regenerate the pattern term from yaml_templates.go of the current tree and compile
-    `gen_pattern = hand_pattern`.  A broken tie is reported (the correspondence run that follows
-    looks for a failing input)."""
-    xb, log = ctx.build_harness("xlate_tmplre")
-    if not xb:
-        ctx.report({"unchecked": "build of the translator xlate_tmplre", "detail": log[-2000:]},
-                   {"kind": "build"}, failing_input=False)
-        return False
+    coq/ties/Tie_C16.v (gen_pattern = hand_pattern, gen_anchored = true and their consequences)
+    against it.  A broken tie is reported; the correspondence run that follows looks for a
+    failing input."""
     src = os.path.join(ctx.copy_repo(), "gconfig", "yaml_templates.go")
-    gen = os.path.join(ctx.gen, "TmplReGen_src.v")
-    rc, out = vlib.sh([xb, "-src", src, "-out", gen], timeout=60)
-    if rc != 0:
-        ctx.report({"unchecked": "translator tie: the env-template pattern could not be read from "
-                                 "gconfig/yaml_templates.go", "detail": out[-2000:]},
-                   {"kind": "translator"}, failing_input=False)
-        return False
-    text = open(gen).read() + (
-        "Lemma tie_anchored : gen_anchored = true.\nProof. reflexivity. Qed.\n"
-        "Lemma tie_pattern : gen_pattern = hand_pattern.\nProof. reflexivity. Qed.\n")
-    rc, out = ctx.coq_eval("TmplReTie", text, timeout=120)
-    ctx.cov["translator_tie"] = "gen_pattern = hand_pattern: " + ("OK" if rc == 0 else "BROKEN")
-    if rc != 0:
-        ctx.report({"unchecked": "translator tie gen_pattern = hand_pattern (the regular expression in "
-                                 "gconfig/yaml_templates.go is no longer the one the theorems are about)",
-                    "generated": open(gen).read()[-1500:], "detail": out[-1500:]},
-                   {"kind": "translator_tie"}, failing_input=False)
-        return False
-    ctx.log("translator tie: pattern of yaml_templates.go = hand_pattern")
-    return True
+    ok, detail = ctx.translator_tie("xlate_tmplre", ["-src", src], "TmplReGen", "Tie_C16")
+    ctx.log("translator tie:", "OK" if ok else "BROKEN", "-", detail.splitlines()[0])
+    if not ok:
+        gen = os.path.join(ctx.gen, "TmplReGen.v")
+        ctx.cov["translator_tie"] = {"status": "BROKEN", "detail": detail[-600:]}
+        ctx.pending_tie_report = ({"unchecked": "translator tie Tie_C16 (the regular expression in gconfig/yaml_templates.go "
+                                 "is no longer the one the theorems are about)",
+                    "generated": open(gen).read()[-1500:] if os.path.isfile(gen) else None,
+                    "detail": detail[-2000:]},
+                   {"kind": "translator_tie"})
+    return ok
 
 
 def replay(ctx, path):
